@@ -3,6 +3,7 @@ package props
 import (
 	"encoding/json"
 	"fmt"
+	"strconv"
 	"strings"
 
 	"pault.ag/go/debian/version"
@@ -36,7 +37,7 @@ func (c03) Batches(tier string, seed uint64) []core.Batch {
 }
 
 func (c03) Mandatory(tier string) []string {
-	return []string{"shape:epoch", "shape:revision", "shape:hyphen-in-upstream", "shape:colon-in-upstream", "shape:whitespace-wrapped",
+	return []string{"shape:epoch", "shape:revision", "shape:hyphen-in-upstream", "shape:trailing-hyphen", "rt:UnmarshalText-does-not-retain-buffer", "shape:colon-in-upstream", "shape:whitespace-wrapped",
 		"invalid:epoch-non-numeric", "invalid:epoch-empty", "invalid:epoch-negative", "invalid:epoch-oversized", "invalid:embedded-space",
 		"invalid:nothing-after-colon", "invalid:first-char-non-digit", "invalid:bad-char-upstream", "invalid:bad-char-revision", "invalid:colon-in-revision",
 		"rt:String", "rt:MarshalControl", "rt:MarshalText", "rt:json", "rt-accepted-from-random", "rt-accepted-from-exhaustive"}
@@ -175,7 +176,9 @@ func (c03) invalidate(r *core.Rand, v gen.VText) [][2]string {
 		pre = fmt.Sprint(v.V.Epoch) + ":"
 	}
 	out = append(out, [2]string{"first-char-non-digit", pre + first + body})
-	bad := r.Pick([]string{"_", "!", "/", "=", ",", "(", "*", "\"", "\x00", "\x7f", "é", "#", "@"})
+	// includes code points whose low byte, or whose UTF-8 bytes, look like ASCII letters or digits to a
+	// careless classifier (U+0141 has low byte 'A', U+0161 'a', U+0431 '1', U+FF11 is a full-width digit one)
+	bad := r.Pick([]string{"_", "!", "/", "=", ",", "(", "*", "\"", "\x00", "\x7f", "é", "#", "@", "Ł", "š", "с", "б", "１", "Ａ", "ĸ", "\u0130", "\xc1", "\xff"})
 	k := r.Range(1, len(v.V.Upstream))
 	rev := ""
 	if v.V.Revision != "" {
@@ -222,6 +225,30 @@ func (c03) roundtrip(c *core.C, s, source string) {
 		return
 	}
 	c.Cover("rt-accepted-from-" + source)
+	// the parts of every accepted string, read off the text as the statement says: epoch = the digits
+	// before the first colon, revision = the text after the last hyphen, upstream = what is in between
+	{
+		text := strings.TrimSpace(s)
+		rest, epochText := text, ""
+		if i := strings.Index(text, ":"); i >= 0 {
+			epochText, rest = text[:i], text[i+1:]
+		}
+		up, rev := rest, ""
+		if i := strings.LastIndex(rest, "-"); i >= 0 {
+			up, rev = rest[:i], rest[i+1:]
+		}
+		if v.Version != up || v.Revision != rev {
+			c.Failf("Parse(%q) = {epoch %d, upstream %q, revision %q}; read off the text, the upstream part is %q and the revision (after the last hyphen) %q", s, v.Epoch, v.Version, v.Revision, up, rev)
+		}
+		if epochText != "" && len(epochText) <= 18 && strings.Trim(epochText, "0123456789") == "" {
+			if n, err := strconv.ParseUint(epochText, 10, 64); err == nil && uint64(v.Epoch) != n {
+				c.Failf("Parse(%q) has epoch %d; the digits before the first colon say %d", s, v.Epoch, n)
+			}
+		}
+		if rev == "" && strings.Contains(rest, "-") {
+			c.Cover("shape:trailing-hyphen")
+		}
+	}
 	if v.Epoch > 0 || v.Revision != "" || strings.ContainsAny(v.Version, ":-") {
 		c.Nontrivial()
 	}
@@ -248,6 +275,16 @@ func (c03) roundtrip(c *core.C, s, source string) {
 		c.Failf("MarshalText of %+v failed: %v", v, err)
 	} else if err := w2.UnmarshalText(mt); err != nil || w2 != v {
 		c.Failf("Parse(%q) = %+v: MarshalText gives %q, UnmarshalText of that gives %+v (err %v)", s, v, mt, w2, err)
+	} else {
+		// encoding.TextUnmarshaler: "UnmarshalText must copy the text if it wishes to retain the text after
+		// returning" - decoders hand in a buffer they reuse
+		for i := range mt {
+			mt[i] = 'X'
+		}
+		if w2 != v {
+			c.Failf("UnmarshalText keeps a reference to the caller's buffer: after the buffer was overwritten the decoded version of %q reads %+v", s, w2)
+		}
+		c.Cover("rt:UnmarshalText-does-not-retain-buffer")
 	}
 	c.Cover("rt:MarshalText")
 	// encoding/json on *Version
